@@ -485,6 +485,31 @@ func runC08(t *testing.T, c HTTPCase) (*h.Violation, h.Info) {
 			sink.mu.Unlock()
 			continue
 		}
+		if r.CtxEnded && status >= 400 && sink.n() != recBefore {
+			// The client had gone before the request was handled. A server may decline to work for it
+			// (below) - or do the work and withhold the answer: nobody is left to read it. What it must
+			// not do is leave the store in a state that is neither "not done" nor "done".
+			dump, err := dbx.Dump(d)
+			if err != nil {
+				return h.V("failed-request-changes-nothing", "%s: client gone, answered %d: %v", desc, status, err), info
+			}
+			if dbx.DumpDiff(dump, tr.M) != "" {
+				shadow := tr.Clone()
+				shadow.Expect(effective, op, ver)
+				if diff := dbx.DumpDiff(dump, shadow.M); diff != "" {
+					return h.V("failed-request-changes-nothing", "%s: client gone, answered %d, and the state is neither the one before nor the one after the request: %s", desc, status, diff), info
+				}
+				tr = shadow
+				if op.Kind == "put" {
+					stored = append(stored, op.Val)
+				}
+			}
+			sink.mu.Lock()
+			sink.lines = sink.lines[:recBefore]
+			sink.mu.Unlock()
+			info.Class("client-gone-request-handled-answer-withheld")
+			continue
+		}
 		if ((r.Chunked && (status == 400 || status == 411 || status == 413 || status == 415 || status == 501)) || (r.CtxEnded && status >= 400)) && sink.n() == recBefore {
 			// (likewise a server may decline to work for a client that has already gone away)
 			// a server may insist on a declared body length (the project's own client always sends one):
